@@ -101,7 +101,7 @@ func VH_C11_pipeline_before_resolution() {
 type vReturner struct{}
 
 func (vReturner) AllocResults(sz ObjectSize) (Struct, error) { return Struct{}, newError("no results") }
-func (vReturner) Return(e error)                                {}
+func (vReturner) Return(e error)                             {}
 
 // after resolution the call is not given to the pipeline caller any more
 func VH_C11_pipeline_after_resolution() {
@@ -399,4 +399,79 @@ func VH_C11_join_chain() {
 	msg.Reset(nil) // drops the result message's capability table
 	vReach("released")
 	vAssert(x.shutdowns == 1, "C11.chain.capability-shut-down-exactly-once-when-all-released")
+}
+
+// vGateCaller: a PipelineCaller whose calls stay inside it until the gate opens
+type vGateCaller struct {
+	gate          chan struct{}
+	entered, left int
+}
+
+func (c *vGateCaller) PipelineSend(ctx context.Context, transform []PipelineOp, s Send) (*Answer, ReleaseFunc) {
+	c.entered++
+	<-c.gate
+	c.left++
+	return ErrorAnswer(s.Method, newError("vGateCaller")), func() {}
+}
+
+func (c *vGateCaller) PipelineRecv(ctx context.Context, transform []PipelineOp, r Recv) PipelineCaller {
+	c.entered++
+	<-c.gate
+	c.left++
+	return nil
+}
+
+// Resolution (Fulfill, Reject or Join) while a pipelined call - sent or received - is still inside
+// the promise's PipelineCaller: the resolution waits for the call, completes when it has returned,
+// and every waiter is released. Scripted with cooperative goroutines.
+func VH_C11_resolve_during_call() {
+	gc := &vGateCaller{gate: make(chan struct{})}
+	p := NewPromise(Method{}, gc)
+	other := NewPromise(Method{}, &vCaller{})
+	recv := vConc(int(vNondetU8()), 2) == 1
+	how := vConc(int(vNondetU8()), 3) // 0 Fulfill, 1 Reject, 2 Join
+	callDone, resolved := false, false
+	go func() {
+		if recv {
+			p.Answer().PipelineRecv(context.Background(), nil, Recv{Returner: vReturner{}, ReleaseArgs: func() {}})
+		} else {
+			_, rel := p.Answer().PipelineSend(context.Background(), nil, Send{})
+			rel()
+		}
+		callDone = true
+	}()
+	vSettle()
+	vReach("call-inside-caller")
+	vAssert(gc.entered == 1 && !callDone, "C11.during.call-is-inside-the-caller")
+	go func() {
+		switch how {
+		case 0:
+			p.Fulfill(Ptr{})
+		case 1:
+			p.Reject(newError("rejected"))
+		default:
+			p.Join(other.Answer())
+		}
+		resolved = true
+	}()
+	vSettle()
+	vAssert(!resolved, "C11.during.resolution-waits-for-the-call")
+	close(gc.gate)
+	vSettle()
+	vReach("released")
+	vAssert(callDone && gc.left == 1, "C11.during.call-completes")
+	vAssert(resolved, "C11.during.resolution-completes-once-the-call-has-returned")
+	if !resolved {
+		return
+	}
+	vAssert(vLocksHeld() == 0, "C11.during.no-lock-held")
+	if how == 2 {
+		vAssert(!vIsClosed(p.Answer().Done()), "C11.during.joined-promise-pending-with-its-parent")
+		other.Fulfill(Ptr{})
+	}
+	vAssert(vIsClosed(p.Answer().Done()), "C11.during.done-closed")
+	vNoBlock(true)
+	_, _ = p.Answer().Struct()
+	p.ReleaseClients()
+	vAssert(vLocksHeld() == 0, "C11.during.after.no-lock-held")
 }
